@@ -96,6 +96,10 @@ def doc_lines(L: Dict[str, Any]) -> List[str]:
             lines += ["", "Args:", "    a: the arg"]
             if prob == "param":
                 lines += ["    nosuch: text"]
+            if prob in ("btype", "btype2"):          # a malformed type; btype2: the same spelling once more, in the next section
+                lines += ["", "Returns:", "    T(T: the value"]
+                if prob == "btype2":
+                    lines += ["", "Yields:", "    T(T: the same spelling again"]
     else:
         if prob == "unkfield":
             lines += [":unknownfield: text", ""]
@@ -106,6 +110,10 @@ def doc_lines(L: Dict[str, Any]) -> List[str]:
             lines += ["", "Parameters", "----------", "a", "    the arg"]
             if prob == "param":
                 lines += ["nosuch", "    text"]
+            if prob in ("btype", "btype2"):          # a malformed type; btype2: a second returned value, the same spelling
+                lines += ["", "Returns", "-------", "first : T(T", "    the first value"]
+                if prob == "btype2":
+                    lines += ["second : T(T", "    the same spelling again"]
     return lines
 
 
@@ -166,12 +174,12 @@ def render(L: Dict[str, Any]) -> Tuple[str, Dict[str, int]]:
         out += [q_ind + "def __init__(self, %s):" % ("a, b=1, c=2" if L.get("typed") else "a"), q_ind + '    """Init."""']
     if kind in ("function", "method"):
         out.append(q_ind + "return a")
-    if L.get("typed"):
+    if L.get("typed") or L["prob"] in ("btype", "btype2"):
         out += ["class T:", '    """The type."""']         # below the object: moves nothing
     # where the planted token / field actually is in the rendered file
-    needle = {"xref": "nosuch.name", "markup": "unclosed", "unkfield": "unknownfield", "param": "nosuch", "tfield": "nosuch.name", "vfield": "nosuch.name", "consbad": ":Parameters:", "ambig": "twin"}[L["prob"]]
+    needle = {"xref": "nosuch.name", "markup": "unclosed", "unkfield": "unknownfield", "param": "nosuch", "tfield": "nosuch.name", "vfield": "nosuch.name", "consbad": ":Parameters:", "ambig": "twin", "btype": "T(T", "btype2": "T(T"}[L["prob"]]
     at = [i + 1 for i, s in enumerate(out) if needle in s]
-    return "\n".join(out) + "\n", {"quote": quote, "text0": text0, "close": close, "at": at[0] if len(at) == 1 else -1,
+    return "\n".join(out) + "\n", {"quote": quote, "text0": text0, "close": close, "at": at[0] if (len(at) == 1 or (L["prob"] == "btype2" and len(at) == 2)) else -1,
                                    "doclen": len(lines)}
 
 
@@ -181,7 +189,7 @@ def check_geometry(rec: Dict[str, Any], meas: Dict[str, int], src: str) -> None:
         if rec[f] != meas[f]:
             raise MachineryError(f"Lines.tla geometry != rendered file for {rec['lay']}: {f} spec={rec[f]} file={meas[f]}\n{src}")
     head = {"p1": "Summary line one", "p2l2": "Second paragraph line one", "item": "item line one",
-            "field": "ote", "own": {"param": "nosuch", "tfield": "type y", "vfield": "ivar y", "consbad": ":Parameters:"}.get(rec["lay"]["prob"], "unknownfield")}[rec["lay"]["pos"]]
+            "field": "ote", "own": {"param": "nosuch", "tfield": "type y", "vfield": "ivar y", "consbad": ":Parameters:", "btype": "T(T", "btype2": "T(T"}.get(rec["lay"]["prob"], "unknownfield")}[rec["lay"]["pos"]]
     flines = src.split("\n")
     if head not in flines[rec["first"] - 1]:
         raise MachineryError(f"Lines.tla FirstLine is not the first line of the construct for {rec['lay']}: "
@@ -342,7 +350,7 @@ def _lines_batch(job: Tuple[str, str, List[Dict[str, Any]]]) -> Dict[str, Any]:
                     "path_ok": all(p == os.path.join(pkg, name) for p in paths)})
     extra = sum(len(v) for k, v in r["per_file"].items() if k not in names)
     return {"obs": obs, "rc": r["rc"], "events": r["events"], "violations": r["violations"], "nprob": r["nprob"],
-            "extra": extra, "W": False, "V": 0, "planted_unparsed": any(rc["lay"]["prob"] == "markup" for rc in recs),
+            "extra": extra, "W": False, "V": 0, "planted_unparsed": any(rc["lay"]["prob"] in ("markup", "btype", "btype2") for rc in recs),
             "planted": len(recs)}
 
 
@@ -621,7 +629,7 @@ def run(ctx: Ctx) -> int:
     for o in observations:
         rec = recs_by_key[json.dumps(o["lay"], sort_keys=True)]
         ctx.traces += 1
-        exp = {"lo": rec["lo"], "hi": rec["hi"], "first": rec["first"], "at": rec["at"], "impl": rec["impl"], "impl2": rec["impl2"], "also": rec["also"]}
+        exp = {"lo": rec["lo"], "hi": rec["hi"], "first": rec["first"], "at": rec["at"], "impl": rec["impl"], "impl2": rec["impl2"], "also": rec["also"], "count": rec["count"]}
         wit = {"layout": o["lay"], "expected": exp, "observed": {"lines": o["lines"], "msgs": o["msgs"]},
                "key": "lines:%s:%s:%s:%s:%s%s" % (o["lay"]["fmt"], o["lay"]["prob"], o["lay"]["pos"], o["lay"]["kind"],
                                                  "typed" if o["lay"]["typed"] else "", "longws" if o["lay"]["longws"] else "")
@@ -874,9 +882,9 @@ def replay(ctx: Ctx, path: str) -> int:
         got = [g[0] for g in r["per_file"].get("m.py", [])]
         exp = w["expected"]
         print("replay: printed lines", got, "accepted", [exp["lo"], exp["hi"]])
-        if len(got) != 1:
+        if len(got) != exp.get("count", 1):
             bad.append("ObsOne")
-        elif not (exp["lo"] <= got[0] <= exp["hi"]):
+        elif not all(exp["lo"] <= g <= exp["hi"] or g == exp.get("also") for g in got):
             bad.append("ObsAcceptable")
     elif w.get("invariant") == "ShiftByK":
         lines = []
